@@ -2,6 +2,7 @@ import KM.Model.CertGen
 import KM.Model.GoLite
 import KM.Gen.GoCertGen
 import KM.Model.GoTypes
+import KM.Props.C06Go
 /-! # C01 — the level test of `certGenHandler` as TRANSLATED from the current source (go2lean)
 
 The statements of `certGenHandler` between the credential check and the refusal — `sufficientAuthLevel := false`,
@@ -197,3 +198,59 @@ theorem c01_go_reached (ext : CertgenExt) (sealed : Bool) (allowed : List (List 
     · rw [hca] at h; simp at h
 
 end KM.CertGen
+
+/-! ### the two translations composed: the gates of `certGenHandler` over the translated `checkAuth` -/
+namespace KM.CertGenGo
+open KM.GoTypes KM.Go KM.CheckAuthGo
+
+/-- `checkAuth` as `certGenHandler` uses it: the translated function of `KM/Gen/GoCheckAuth.lean`, its pointer result
+read as the handler reads it -/
+def checkAuthAsExt (cx : CheckAuthExt) (method host : List Char) (hasTLS hasChains : Bool) (cookies : List Cookie) :
+    CertgenExt :=
+  ⟨fun req =>
+    let r := (KM.Gen.GoCheckAuth.checkAuth cx method host hasTLS hasChains cookies req).1
+    (r.1.getD ⟨[], 0, 0, 0⟩, r.2)⟩
+
+/-- **certificates are issued only after the operator-required authentication** (C01), end to end on the translated
+source — the gates of `certGenHandler` over the translated `checkAuth`, every backend and library call arbitrary: the
+form-parsing and signing code is reached only on an unsealed server, for a POST, when `checkAuth` handed out an
+identity (so: a verified client certificate, a confirmed password with no cookie present, or a verified unexpired
+cookie — `Admitted`), whose level satisfies the operator's list for certificates (or carries U2F), and whose user name
+is the one in the URL. -/
+theorem c01_go_end_to_end (cx : CheckAuthExt) (method host : List Char) (hasTLS hasChains : Bool)
+    (cookies : List Cookie) (sealed : Bool) (allowed : List (List Char)) (urlUser : List Char)
+    (h : HttpEffect.reached ∈ (KM.Gen.GoCertGen.certgenGates
+      (checkAuthAsExt cx method host hasTLS hasChains cookies) sealed allowed urlUser method).2) :
+    sealed = false ∧ method = "POST".toList ∧
+    ∃ info, (KM.Gen.GoCheckAuth.checkAuth cx method host hasTLS hasChains cookies 65535).1 = (some info, none) ∧
+      Admitted cx hasTLS hasChains cookies 65535 info ∧
+      KM.CertGen.specSufficientB allowed info.AuthType = true ∧ info.Username = urlUser := by
+  rw [KM.CertGen.c01_go_gates] at h
+  cases sealed
+  · simp only [Bool.false_eq_true, if_false] at h
+    unfold checkAuthAsExt at h
+    dsimp only at h
+    rcases hr : (KM.Gen.GoCheckAuth.checkAuth cx method host hasTLS hasChains cookies 65535).1 with ⟨oi, e⟩
+    rw [hr] at h
+    cases e with
+    | some e => simp at h
+    | none =>
+      cases oi with
+      | none =>
+        have := c06_go_check_auth_refuses cx method host hasTLS hasChains cookies 65535 (by rw [hr])
+        rw [hr] at this; cases this
+      | some info =>
+        simp only [Option.getD_some] at h
+        have hadm := (c06_go_check_auth_admits cx method host hasTLS hasChains cookies 65535 info none hr).2
+        by_cases h1 : KM.CertGen.specSufficientB allowed info.AuthType = false
+        · rw [if_pos h1] at h; simp at h
+        · rw [if_neg h1] at h
+          by_cases h2 : info.Username ≠ urlUser
+          · rw [if_pos h2] at h; simp at h
+          · rw [if_neg h2] at h
+            by_cases h3 : method ≠ "POST".toList
+            · rw [if_pos h3] at h; simp at h
+            · refine ⟨rfl, Classical.not_not.mp h3, info, rfl, hadm, by simpa using h1, Classical.not_not.mp h2⟩
+  · simp at h
+
+end KM.CertGenGo
